@@ -72,6 +72,7 @@ class C13Monitor(FBMonitor):
 
     def on_build(self, w):
         self.zetas = []
+        self.pits = []
         self.has_constraints = bool(w.sc["atoms"].get("constraints"))
         self.gamma_ref = None
         shape = (len(w.atoms), 3)
@@ -138,6 +139,14 @@ class C13Monitor(FBMonitor):
             self.opp_exp += np.where(strong, p, 0.0)
             self.opp_var += np.where(strong, p * (1 - p), 0.0)
         if w.sc.get("collect"):
+            # probability integral transform with THIS step's gamma: uniform on [0, 1] whatever gamma does between steps
+            z = np.asarray(mc.zeta, dtype=float)
+            u = np.full(z.shape, np.nan)
+            for idx in np.ndindex(z.shape):
+                g = float(gam[idx])
+                if abs(g) >= MIN_GAMMA:
+                    u[idx] = float(bn_cdf(np.array([z[idx]]), g)[0])
+            self.pits.append(u)
             if self.gamma_ref is None:
                 self.gamma_ref = np.array(gam, copy=True)
             elif not np.allclose(gam, self.gamma_ref, rtol=1e-9, atol=0):
@@ -184,7 +193,29 @@ def opposed_flags(mons, sigmas=6.0, slack=3.0):
     return out
 
 
-def density_flags(mon, min_gamma=0.99e-11):
+MIN_GAMMA = 0.99e-11
+
+
+def pit_flags(mons):
+    """KS distance from the uniform law of the per-step transformed draws, per coordinate, pooled over the monitors
+    -> list of (D*sqrt(n), D, n, idx)"""
+    mons = [m for m in mons if m.pits]
+    if not mons:
+        return []
+    U = np.concatenate([np.stack(m.pits) for m in mons])
+    out = []
+    for idx in np.ndindex(U.shape[1:]):
+        u = U[(slice(None),) + idx]
+        u = np.sort(u[~np.isnan(u)])
+        n = len(u)
+        if n < 100:
+            continue
+        D = float(max(np.max(np.arange(1, n + 1) / n - u), np.max(u - np.arange(0, n) / n)))
+        out.append((D * math.sqrt(n), D, n, idx))
+    return out
+
+
+def density_flags(mon, min_gamma=MIN_GAMMA):
     """KS statistic per coordinate -> list of (D*sqrt(n), D, n, gamma, mean, idx)"""
     if not mon.zetas or mon.gamma_ref is None or getattr(mon, "nonstationary", False):
         return []
@@ -280,8 +311,14 @@ class C13(Campaign):
                                  "scheme": rnd.choice(["forces", "energy"]), "update_function": rnd.choice(["tanh", "exp"])})
             if rnd.random() < 0.6:
                 k = rnd.randint(2, 4)
-                sc["calc"]["committee"] = {"forces_comm": [[[gen.rfloat(rnd, -2, 2, 3) for _ in range(3)] for _ in range(n)] for _ in range(k)],
-                                           "energies": [gen.rfloat(rnd, -1, 1, 4) for _ in range(k)]}
+
+                def committee(spread):
+                    return {"forces_comm": [[[gen.rfloat(rnd, -spread, spread, 3) for _ in range(3)] for _ in range(n)] for _ in range(k)],
+                            "energies": [gen.rfloat(rnd, -spread / 2, spread / 2, 4) for _ in range(k)]}
+                sc["calc"]["committee"] = committee(2.0)
+                if rnd.random() < 0.5:
+                    # the committee's spread (hence the adapted delta) changes from step to step
+                    sc["calc"]["committee"] = {"sequence": [committee(s) for s in rnd.sample([0.05, 0.3, 2.0, 8.0], rnd.randint(2, 3))]}
         return sc
 
     def sample_view(self, sc):
@@ -345,6 +382,15 @@ class C13(Campaign):
                     res.violations.append(Violation("C13", "zeta_density_differs_from_bal_neyts", f"driver={sc['driver']}",
                                                     conf + f" | stage 1: coordinate {idx}, gamma={gam:.4g}, KS D={D:.4f} over {S} steps, mean zeta {mean:+.4f}"))
                     break
+            # the same through the per-step transform (also valid when gamma changes from step to step)
+            if not res.violations:
+                for stat, D, n, idx in [x for x in pit_flags([mon]) if x[0] > 2.2]:
+                    res.count("probe.stage1_flag_density_pit")
+                    conf = self._confirm_pit(sc, idx)
+                    if conf:
+                        res.violations.append(Violation("C13", "zeta_density_differs_from_bal_neyts", f"driver={sc['driver']}",
+                                                        conf + f" | stage 1: coordinate {idx}, KS D={D:.4f} of the transformed draws over {n} steps"))
+                        break
             # the sign of the mean: displacement along the force is favoured
             for stat, D, S, gam, mean, idx in density_flags(mon):
                 if abs(gam) > 0.5 and mean * gam <= 0:
@@ -378,6 +424,24 @@ class C13(Campaign):
         if D > 2 * crit and D > 0.02:
             return (f"confirmed over 4 fresh seeds ({n} samples): KS D={D:.4f} > 2 x {crit:.4f}; mean zeta {np.mean(z):+.4f} "
                     f"vs Bal-Neyts mean {self._bn_mean(gam):+.4f}")
+        return None
+
+    def _confirm_pit(self, sc, idx):
+        mons = []
+        for j in range(4):
+            c = copy.deepcopy(sc)
+            c["seed"] = derive(sc["seed"], "confirm_pit", j) % (2**31 - 1) + 1
+            c["steps"] = [{"n": 4 * sum(s["n"] for s in sc["steps"])}]
+            try:
+                w, mon = run_fb(c)
+            except Exception:  # noqa: BLE001
+                return None
+            mons.append(mon)
+        for stat, D, n, i in pit_flags(mons):
+            if tuple(i) == tuple(idx):
+                crit = math.sqrt(-math.log(1e-9 / 2) / 2) / math.sqrt(n)
+                if D > 2 * crit and D > 0.02:
+                    return f"confirmed over 4 fresh seeds ({n} draws, each transformed with its own step's gamma): KS D={D:.4f} > 2 x {crit:.4f}"
         return None
 
     @staticmethod
